@@ -66,6 +66,11 @@ def _content(n):
 
 
 def run_scenario(case):
+    pol = sim.fault_table_isolation_probe()
+    if pol is not None:
+        # the table of the *local entity* decides: configuring one fault handler object must not change another one
+        # (self-contained probe, restores the defaults)
+        return Result([verdict("table-is-per-entity", "C14/fault-handler-table-shared-between-instances", pol)], True, ["table-shared"], {})
     site, code = case["site"], case["code"]
     condname = SITE_COND[site]
     cond = int(ConditionCode[condname])
@@ -146,7 +151,12 @@ def run_scenario(case):
         elif site == "dst_size_eof":
             script = [("pdu", md)] + allfd + [eof(s=max(0, size - 1 - case.get("variant", 0)))]
         elif site.startswith("dst_store"):
-            script = [("pdu", md)]
+            if case.get("late_md") and mode == "ACK":
+                # the Metadata PDU was lost: the EOF opens the transaction, the deferred procedure re-requests the
+                # Metadata, and the rejection is declared when the late Metadata PDU arrives
+                script = [eof(), ("until", "NAK"), ("pdu", md)]
+            else:
+                script = [("pdu", md)]
         elif site == "dst_cancel_req":
             script = [("pdu", md)] + allfd[: case.get("at", 1)] + [("cancel",)]
     h = rig.h
@@ -234,7 +244,7 @@ def run_scenario(case):
             # declared earlier than the scripted call (e.g. limit 1): that call is the declaring one
             trig = res
             break
-    classes = [f"site:{site}", f"code:{code}", f"mode:{mode}"] + (["after-prior-cancelled-transaction"] if case.get("prior") else [])
+    classes = [f"site:{site}", f"code:{code}", f"mode:{mode}"] + (["after-prior-cancelled-transaction"] if case.get("prior") else []) + (["late-metadata"] if case.get("late_md") and site.startswith("dst_store") else [])
     if not setup_ok and not vs:
         return Result([], False, classes + ["setup-did-not-reach-site"], {"trace": trace})
     if vs:
@@ -337,6 +347,9 @@ def run_api(case):
              "FILE_SIZE_ERROR", "FILESTORE_REJECTION", "NAK_LIMIT_REACHED", "INACTIVITY_DETECTED", "CHECK_LIMIT_REACHED", "UNSUPPORTED_CHECKSUM_TYPE"}
     inside = condname in table
     vs = []
+    pol = sim.fault_table_isolation_probe()
+    if pol is not None:
+        return Result([verdict("table-is-per-entity", "C14/fault-handler-table-shared-between-instances", pol)], True, ["table-shared"], {})
     tid = TransactionId(UnsignedByteField(3, 2), UnsignedByteField(9, 2))
     sig = f"C14/api/{'table' if inside else 'outside'}"
     try:
@@ -394,6 +407,10 @@ def exhaustive_cases(shard, nshards):
                     c2 = dict(c)
                     c2["prior"] = True
                     yield c2
+                if site.startswith("dst_store") and mode == "ACK":
+                    c3 = dict(c)
+                    c3["late_md"] = True
+                    yield c3
     for cond in ConditionCode:
         for code in ["IGNORE", "CANCEL", "ABANDON", "SUSPEND"]:
             idx += 1
@@ -414,7 +431,7 @@ def sampled_case(draw):
         "nak_limit": draw(st.integers(1, 4)), "check_limit": draw(st.integers(2 if site == "dst_csum_expiry" else 1, 4)), "nseg": nseg,
         "short": draw(st.integers(0, SEG - 1)) if draw(st.booleans()) else 0, "miss": draw(st.integers(0, 5)), "at": draw(st.integers(0, nseg)),
         "mode": draw(st.sampled_from(["ACK", "NAK"])), "csum": draw(st.sampled_from(["CRC_32", "CRC_32C", "MODULAR"])),
-        "immediate_nak": draw(st.booleans()), "disposition": draw(st.booleans()), "prior": draw(st.integers(0, 3)) == 0,
+        "immediate_nak": draw(st.booleans()), "disposition": draw(st.booleans()), "prior": draw(st.integers(0, 3)) == 0, "late_md": draw(st.integers(0, 2)) == 0,
     }
 
 
